@@ -483,6 +483,8 @@ static void check_effect(Ctx &x, const Judg &j, const Bytes &m, const Snap &a, c
             // not pinned by the statement: bank/program (kept or cleared), drum flags (kept or cleared), RPN selection, brightness
             if(memcmp(a.bank[i], b.bank[i], 3) && (b.bank[i][0] || b.bank[i][1] || b.bank[i][2])) bad += vfmt(" ch%d.bank/patch=%u/%u/%u", i, b.bank[i][0], b.bank[i][1], b.bank[i][2]);
             if(b.drum[i] && !a.drum[i]) bad += vfmt(" ch%d.drumflag-set", i);
+            // ... except that a GS reset returns every part to its GS default: only part 10 is a rhythm part afterwards
+            if(j.mode == MODE_GS && i != 9 && b.drum[i]) bad += vfmt(" ch%d.still-a-drum-part-after-GS-reset", i);
         }
         count("controller_resets_checked");
         if(!bad.empty()) x.viol(std::string("oracle:C19:") + pre_noeffect + ":" + kn + ":controllers-not-reset", m, "after the mode switch:" + bad);
